@@ -2083,10 +2083,27 @@ func getMethod(n *node) {
 	l := n.level
 	next := getExec(n.tnext)
 
+	// A value receiver is copied when the method value is evaluated, not when it is called.
+	var recv func(*frame) reflect.Value
+	if rt := n.val.(*node).typ.recv; n.recv != nil && rt != nil && rt.TypeOf().Kind() != reflect.Ptr {
+		recv = genValueRecv(n)
+	}
+
 	n.exec = func(f *frame) bltn {
 		nod := *(n.val.(*node))
 		nod.val = &nod
 		nod.recv = n.recv
+		if recv != nil {
+			r := recv(f)
+			if r.Kind() == reflect.Ptr && !r.IsNil() {
+				r = r.Elem()
+			}
+			if r.Kind() != reflect.Ptr {
+				c := reflect.New(r.Type()).Elem()
+				c.Set(r)
+				nod.recv = &receiver{val: c}
+			}
+		}
 		getFrame(f, l).data[i] = genFuncValue(&nod)(f)
 		return next
 	}
